@@ -118,6 +118,7 @@ func runC01(tier string, seed uint64) {
 	metas := [][]KV{
 		nil,
 		{{"Content-Type", "application/x-verif"}, {"X-Amz-Meta-One", "1"}},
+		{{"Content-Type", "application/x-verif"}, {"X-Amz-Meta-One", ""}, {"X-Amz-Meta-Sym", ""}}, // empty values are values too
 		{{"Content-Type", "text/plain; charset=utf-8"}, {"Content-Encoding", "gzip"}, {"Content-Disposition", `attachment; filename="a b.txt"`}, {"X-Amz-Meta-Long", strings.Repeat("v", 900)}, {"X-Amz-Meta-Sym", "a=b;c, d"}},
 	}
 	for _, kind := range allKinds {
@@ -171,7 +172,7 @@ func runC01(tier string, seed uint64) {
 					if how == 1 && sz == 0 {
 						// browser form with an empty file still uploads an empty object
 					}
-					round(keys[(i+how)%len(keys)], body, metas[(i+how)%len(metas)], how)
+					round(keys[(i+how)%len(keys)], body, metas[(i+2*how)%len(metas)], how) // every key is overwritten under each metadata set in turn
 				}
 			}
 			for _, k := range keys {
@@ -206,5 +207,5 @@ func runC01(tier string, seed uint64) {
 			s.end()
 		}
 	}
-	sample("per backend x integrity on/off: bodies of 0,1,2,63..65,4095..4097,32767..32769 random bytes (and 1 MiB+1; 5 MiB+3 thorough) x 8 keys (spaces, '+', UTF-8, '?', '&', '%41%2F', ';', ',', 401 bytes nested) x 3 metadata sets (none; type + x-amz-meta; type+encoding+disposition+900-byte value), uploaded by PUT (with/without Content-MD5), browser-form POST, copy (plain, and with metadata headers of its own, the source re-read afterwards), and Backend.PutObject; each followed by GET and HEAD (HTTP and Backend API) and a listing of the key; groups of keys that differ only by '/', '_', '\\', case, ' ', '+', '%20', trailing '.' each get their own body and metadata, are read back, one is rewritten, one deleted, all read again")
+	sample("per backend x integrity on/off: bodies of 0,1,2,63..65,4095..4097,32767..32769 random bytes (and 1 MiB+1; 5 MiB+3 thorough) x 8 keys (spaces, '+', UTF-8, '?', '&', '%41%2F', ';', ',', 401 bytes nested) x 4 metadata sets (none; type + x-amz-meta; the same headers with empty values; type+encoding+disposition+900-byte value), every key overwritten under each set in turn, uploaded by PUT (with/without Content-MD5), browser-form POST, copy (plain, and with metadata headers of its own, the source re-read afterwards), and Backend.PutObject; each followed by GET and HEAD (HTTP and Backend API) and a listing of the key; groups of keys that differ only by '/', '_', '\\', case, ' ', '+', '%20', trailing '.' each get their own body and metadata, are read back, one is rewritten, one deleted, all read again")
 }
